@@ -1,11 +1,14 @@
 (* C14 — Random eviction keeps stored bytes within the memory limit.
    Statements only; proofs in Proofs/PPolicy.v. The victims are an arbitrary
    oracle ([s_oracle]); every theorem holds for all oracles. [acct s]: keys
-   unique, counter = stored bytes, stored bytes < 2^64 (C15). Sequential clause;
-   the concurrent clause (stores finishing concurrently) is not a theorem here:
-   replaced sizes are read in a separate step from the store itself, see DESIGN §5 C14. *)
+   unique, counter = stored bytes, stored bytes < 2^64 (C15). The sequential clause
+   is about Model/Store.v; the concurrent clause (C14_bound_concurrent) is about
+   Model/PolConc.v, where every Cache operation of the policy is a program over
+   its atomic map and counter calls, interleaved by an arbitrary schedule. *)
+From Coq Require Import ZArith.
 From MC Require Import Model.Base Model.Generated Model.Store Model.Memc Model.Codec Model.Handler
-  Spec.Exec Proofs.StoreLemmas Proofs.SetLemmas Proofs.Effects Proofs.PPolicy.
+  Model.PolConc Spec.Exec Spec.PolOld Proofs.StoreLemmas Proofs.SetLemmas Proofs.Effects Proofs.PPolicy
+  Proofs.PPolConc.
 
 (* the eviction loop terminates within its fuel (one iteration per stored record
    plus one): when it returns, the counter is within the limit or nothing is left;
@@ -43,6 +46,55 @@ Theorem C14_bound_every_request : forall req s L,
   total (s_mem (fst (handle_request req s))) <= N.max (total (s_mem s)) (L + wsize req s).
 Proof. exact handle_total. Qed.
 Print Assumptions C14_bound_every_request.
+
+(* the concurrent clause. Any number of clients, each choosing its next Cache
+   operation (get / set / delete / flush, with or without delay) from the answers
+   it has had; any schedule of their atomic steps; any outcome of the scans of the
+   map (the oracle). At every moment — in particular whenever no store is in
+   progress — the bytes stored are at most the limit (or what was stored at the
+   start, if that was more) plus the records of the stores that were in progress
+   together at one earlier instant of the same execution ([in_flight_sum] of the
+   clients after a prefix of the schedule): "L plus one record per store that was
+   finishing concurrently". *)
+Theorem C14_bound_concurrent :
+  forall (now : N) (limit : Z), (0 <= limit)%Z ->
+  forall (clients : list (list pores -> option pop)) (s0 : pshared) (sched : list nat),
+  NoDup (keys (p_mem s0)) -> p_usage s0 = totz s0 ->
+  let ts0 := map (fun c => new_gthread c) clients in
+  exists pre, prefix pre sched /\
+    (totz (snd (prun_sched now limit sched ts0 s0))
+     <= Z.max limit (totz s0) + in_flight_sum (fst (prun_sched now limit pre ts0 s0)))%Z.
+Proof. exact bound_conc. Qed.
+Print Assumptions C14_bound_concurrent.
+
+(* what the theorem above is about did not hold before the repair (DESIGN §6):
+   with the replaced size looked up in a separate step, two clients overwriting
+   one 1000-byte item with 10 and 1000 bytes leave 1024 bytes stored and 34
+   accounted — 990 bytes the eviction loop will never see *)
+Theorem C14_prefix_accounting_refuted :
+  let k := [x6b] in
+  let s0 := mkP [(k, mkRec 0 1 0 0 (repeat x6f 1000))] 2 1024%Z [] in
+  let ops := [[PoSet k (mkRec 0 0 0 0 (repeat x61 10))]; [PoSet k (mkRec 0 0 0 0 (repeat x62 1000))]] in
+  let ts0 := map (fun o => new_gthread (list_client o)) ops in
+  let sched := [0;0;0;1;1;1;0;0;0;0;0;1;1;1;1;1]%nat in
+  let old := snd (prun_sched_old 0 100000%Z sched ts0 s0) in
+  let new := snd (prun_sched 0 100000%Z sched ts0 s0) in
+  (p_usage old = 34%Z /\ totz old = 1024%Z) /\ (p_usage new = 1024%Z /\ totz new = 1024%Z).
+Proof. vm_compute. repeat split; reflexivity. Qed.
+Print Assumptions C14_prefix_accounting_refuted.
+
+(* non-vacuity of the concurrent clause: limit 100, two clients store 90-byte
+   records over an empty store at the same time; both were admitted before either
+   stored, 180 bytes end up stored: within 100 + (90 + 90), above 100 + 90 *)
+Example C14_concurrent_nonvacuous :
+  let s0 := mkP [] 1 0%Z [] in
+  let ops := [[PoSet [x61] (mkRec 0 0 0 0 (repeat x61 66))]; [PoSet [x62] (mkRec 0 0 0 0 (repeat x62 66))]] in
+  let ts0 := map (fun o => new_gthread (list_client o)) ops in
+  let sched := [0;0;1;1;0;0;0;0;0;1;1;1;1;1]%nat in
+  let '(ts, s) := prun_sched 0 100%Z sched ts0 s0 in
+  totz s = 180%Z /\ p_usage s = 180%Z /\ Forall idle ts /\
+    in_flight_sum (fst (prun_sched 0 100%Z [0;0;1;1]%nat ts0 s0)) = 180%Z.
+Proof. vm_compute. repeat split; repeat constructor. Qed.
 
 Example C14_nonvacuous :
   let s0 := init_store (Some 100) in
